@@ -70,6 +70,8 @@ type Sim struct {
 	gate     chan struct{}
 	Requests int
 	stopped  bool
+	closed   bool
+	stopErr  error
 }
 
 func (s *Sim) noteRequest(p *Peer, m wire.Message) {
@@ -459,16 +461,34 @@ func Run(t *testing.T, cfg Config, setup func(s *Sim), script func(s *Sim)) (res
 	return
 }
 
-// Shutdown stops the client, closes peers and the database (idempotent).
-func (s *Sim) Shutdown(res *Result) {
+// StopClient calls ChainService.Stop once (safe to call from any goroutine of
+// the bubble; it does not wait for quiescence).
+func (s *Sim) StopClient() error {
 	s.mu.Lock()
 	if s.stopped {
 		s.mu.Unlock()
-		return
+		return s.stopErr
 	}
 	s.stopped = true
 	s.mu.Unlock()
 	err := s.CS.Stop()
+	s.mu.Lock()
+	s.stopErr = err
+	s.mu.Unlock()
+	return err
+}
+
+// Shutdown stops the client, closes peers and the database (idempotent). It
+// must be called from the bubble's main goroutine.
+func (s *Sim) Shutdown(res *Result) {
+	s.mu.Lock()
+	if s.closed {
+		s.mu.Unlock()
+		return
+	}
+	s.closed = true
+	s.mu.Unlock()
+	err := s.StopClient()
 	if res != nil {
 		res.StopErr = err
 	}
